@@ -120,7 +120,12 @@ fn main() {
                                                 let mut g = log.0.lock().unwrap();
                                                 lastdial.lock().unwrap()[m] = aid;
                                                 let name = ["v1", "v2", "v3"][m];
-                                                g.push(json!({"e": "dial", "m": name, "a": aid}));
+                                                // a busy-looping dialler must not blow up the trace: identical repeats beyond the 20th in a row are not logged
+                                                let ev = json!({"e": "dial", "m": name, "a": aid});
+                                                let repeats = g.iter().rev().take(20).take_while(|x| **x == ev).count();
+                                                if repeats < 20 {
+                                                    g.push(ev);
+                                                }
                                             }
                                             drop(sock);
                                         }
@@ -146,11 +151,13 @@ fn main() {
                         }
                     };
                     let received: Arc<Mutex<Vec<gv::AddrBatch>>> = Arc::new(Mutex::new(vec![]));
+                    let stalled = Arc::new(std::sync::atomic::AtomicBool::new(false));
                     let idx = Arc::new(Mutex::new(0usize));
                     let script = Arc::new(script);
                     let next: Arc<dyn Fn(Option<bool>) -> Option<gv::AddrBatch> + Send + Sync> = {
                         let (log, net, member_pk, own_pk, received, idx, script, lastdial, abs_entry) =
                             (log.clone(), net.clone(), member_pk.clone(), own_pk.clone(), received.clone(), idx.clone(), script.clone(), lastdial.clone(), abs_entry.clone());
+                        let stalled = stalled.clone();
                         Arc::new(move |prev: Option<bool>| {
                             if let Some(ok) = prev {
                                 let book = gv::addr_book(&net);
@@ -167,7 +174,9 @@ fn main() {
                                 }
                                 log.emit(json!({"e": "ack", "ok": ok, "book": bj, "others": others}));
                                 // let the connection loops catch up: until, for every member, the last dial went to the address the REAL book holds
-                                for _ in 0..5000 {
+                                let limit = if stalled.load(std::sync::atomic::Ordering::SeqCst) { 25 } else { 5000 };
+                                let mut caught_up = false;
+                                for _ in 0..limit {
                                     let book = gv::addr_book(&net);
                                     let ld = *lastdial.lock().unwrap();
                                     let pending = member_pk.iter().enumerate().any(|(m, pk)| match book.iter().find(|(k, _)| k == pk) {
@@ -175,9 +184,14 @@ fn main() {
                                         None => false,
                                     });
                                     if !pending {
+                                        caught_up = true;
                                         break;
                                     }
                                     std::thread::sleep(std::time::Duration::from_millis(2));
+                                }
+                                if !caught_up {
+                                    // 10 s without the expected connection attempt: the next `batch` event lets the specification judge; do not wait that long again
+                                    stalled.store(true, std::sync::atomic::Ordering::SeqCst);
                                 }
                                 std::thread::sleep(std::time::Duration::from_millis(3));
                                 // what the node forwarded to this peer so far
